@@ -287,6 +287,68 @@ impl<const L: usize> Plain<L> {
     }
 }
 
+/// the reference-model half of `Plain::apply` (used to decide validity of large-volume scenarios)
+fn apply_models_only(models: &mut [RefModel], op: &POp) {
+    match op {
+        POp::Create { a, bid, vol, trader, price } => {
+            let _ = models[*a].create(*bid, *vol, *trader, *price);
+        }
+        POp::Time(t) => models.iter_mut().for_each(|m| m.set_time(*t)),
+        POp::ResetTv => models.iter_mut().for_each(|m| m.reset_trade_vol()),
+        POp::New { a, id } => models[*a].place(*id),
+        POp::Cancel { a, id } => models[*a].cancel(*id),
+        POp::Modify { a, id, price, vol } => {
+            let tick = models[*a].tick;
+            if price.map_or(true, |p| p % tick == 0) {
+                models[*a].modify(*id, *price, *vol);
+            }
+        }
+        POp::Enable => models.iter_mut().for_each(|m| m.enable()),
+        POp::Disable => models.iter_mut().for_each(|m| m.disable()),
+    }
+}
+
+/// With volumes near 2^31 a scenario is only valid (per-side resting volume and per-step traded
+/// volume < 2^32) if that holds under EVERY schedule of the batch: decided on the 64-bit
+/// reference model before a step is offered.
+fn batch_valid<const A: usize>(cfg: &ECfg, node: &ENode) -> bool {
+    let cap = u32::MAX as u64;
+    let batch = &node.batch;
+    let nb = batch.len();
+    let mut new_ids: BTreeMap<usize, (usize, usize)> = BTreeMap::new();
+    {
+        let mut created: Vec<usize> = vec![0; A];
+        let total_new: Vec<usize> = (0..A).map(|a| batch.iter().filter(|i| matches!(i, Instr::New { a: ia, .. } if *ia == a)).count()).collect();
+        for (idx, i) in batch.iter().enumerate() {
+            if let Instr::New { a, .. } = i {
+                let first = node.n_orders[*a] - total_new[*a];
+                new_ids.insert(idx, (*a, first + created[*a]));
+                created[*a] += 1;
+            }
+        }
+    }
+    for c in &node.cands {
+        let mut base: Vec<RefModel> = cfg.ticks.iter().map(|t| RefModel::new(cfg.start, *t, cfg.start_trading)).collect();
+        for op in c {
+            apply_models_only(&mut base, op);
+        }
+        for pi in permutations(nb) {
+            let mut ms = base.clone();
+            apply_models_only(&mut ms, &POp::ResetTv);
+            for (i, &bi) in pi.iter().enumerate() {
+                apply_models_only(&mut ms, &POp::Time(node.time + i as u64));
+                if let Some(p) = instr_to_pop(&batch[bi], &new_ids, bi) {
+                    apply_models_only(&mut ms, &p);
+                }
+                if ms.iter().any(|m| m.side_vol(true) > cap || m.side_vol(false) > cap || m.trade_vol > cap) {
+                    return false;
+                }
+            }
+        }
+    }
+    true
+}
+
 #[derive(Clone, Debug)]
 pub struct EAlpha {
     /// per asset: grid prices offered
@@ -333,6 +395,8 @@ pub struct ECfg {
     pub clauses: Clauses,
     /// a scripted prefix of actions executed (and judged) before the exploration
     pub base: Vec<Act>,
+    /// volumes near 2^31: steps are offered only for batches that are valid under every schedule
+    pub magnitude: bool,
 }
 
 #[derive(Clone)]
@@ -554,7 +618,7 @@ fn enabled<const A: usize>(cfg: &ECfg, node: &ENode) -> Vec<Act> {
     if node.toggles - node.b_toggles < cfg.max_toggles {
         v.push(if node.trading { Act::Disable } else { Act::Enable });
     }
-    if node.steps - node.b_steps < cfg.max_steps {
+    if node.steps - node.b_steps < cfg.max_steps && (!cfg.magnitude || batch_valid::<A>(cfg, node)) {
         let n = node.batch.iter().filter(|i| !matches!(i, Instr::BadNew { .. })).count();
         let scripts = all_index_scripts(n);
         if n <= cfg.full_scripts_upto {
